@@ -106,6 +106,12 @@ def _is_zero_array(v):
     return un(v, "zeros") is not None or un(v, "zeros_like") is not None or (israt(v) and v.is_zero())
 
 
+def _is_fresh_array(v):
+    """a newly allocated array, whatever it is filled with (np.zeros / np.empty / np.ones / *_like): enough where every element is overwritten afterwards"""
+    v = _strip_carried(v)
+    return _is_zero_array(v) or any(un(v, k) is not None for k in ("empty", "ones", "empty_like", "ones_like", "zeros_like"))
+
+
 def _counter_offset(ix, loops):
     """ix = k + c for one recorded loop counter k and a constant c  ->  (loop record, c)"""
     for l in loops:
@@ -527,13 +533,36 @@ def r2_interp(ctx):
         form_ok = A is not None and un(A, "apply") is not None and (eq(it[2], F.const(0)) or eq(it[2], A))
     else:
         A = v
+        if applied(A)[0] is None and israt(v):
+            try:
+                if applied(F.log(v))[0] is not None:
+                    A = F.log(v)          # exp of every result, in range or not: the form the second obligation reports
+            except Unsupported:
+                pass
     a, q = applied(A)
     where = mk[0].node if mk else fn
-    if a is None:
-        if v is None or is_unknown(v):
+    if a is None and israt(v) and (find_atoms(v, lambda n, a_: n in ("loopres", "carried")) or (st is None and it is None and find_atoms(v, lambda n, a_: n in ("store", "ite")))):
+        # the interpolant is post-processed in a way that is none of the forms above (element by element in a loop, in several steps ...): not decided
+        ctx.error("interp (log-log): the value returned is the interpolant with exp() written back under the in-range mask", R.ret_node(), _short(v))
+        a = None
+    else:
+        a = a if a is not None else ({} if not (v is None or is_unknown(v)) else None)
+        if a is None:
             ctx.error("interp (log-log): the returned value", R.ret_node(), _short(v))
-            return
-        a = {}
+    if a is not None:
+        _r2_loglog(ctx, R, v, a, q, form_ok, mask, where)
+    # ---- linear regime
+    R, v, mk = regime(True)
+    a, q = applied(v)
+    if a is None and israt(v) and find_atoms(v, lambda n, a_: n in ("loopres", "carried")):
+        ctx.error("interp (linear): the value returned is the interpolant itself", R.ret_node(), _short(v))
+        return
+    a = a or {}
+    ok = R.same(a.get("x"), "Freq") and R.same(a.get("y"), "PSD") and R.same(q, "freq") and not R.cells
+    _chk(ctx, ok, "interp (linear): no log/exp on either side", mk[0].node if mk else fn, None if ok else {"returned": _short(v)}, [v])
+
+
+def _r2_loglog(ctx, R, v, a, q, form_ok, mask, where):
     ok = R.same(a.get("x"), "np.log(Freq)") and R.same(a.get("y"), "np.log(PSD)") and R.same(q, "np.log(freq)")
     _chk(ctx, ok, "interp (log-log): both axes of the specification and the query frequencies are taken to log", where,
          None if ok else {"interp1d": {k: _short(x) for k, x in a.items()}, "query": _short(q)}, [v])
@@ -543,12 +572,6 @@ def r2_interp(ctx):
          None if ok else {"returned": _short(v)}, [v])
     ok = R.same(a.get("fill_value"), "0") and R.same(a.get("bounds_error"), "False")
     ctx.check(ok, "interp (log-log): out-of-range queries give 0, not an error", where, nontrivial=False)
-    # ---- linear regime
-    R, v, mk = regime(True)
-    a, q = applied(v)
-    a = a or {}
-    ok = R.same(a.get("x"), "Freq") and R.same(a.get("y"), "PSD") and R.same(q, "freq") and not R.cells
-    _chk(ctx, ok, "interp (linear): no log/exp on either side", mk[0].node if mk else fn, None if ok else {"returned": _short(v)}, [v])
 
 
 # =============================================================================================================================== R3 resample
@@ -1135,7 +1158,8 @@ def _rescale_regime(ctx, fn, shape):
         if cell is not None:
             # stored into column k of a zero array inside the loop
             sp = ix_parts(cell.ix) if israt(cell.ix) else []
-            good = per_col and len(sp) == 2 and eq(sp[0], S.FULL) and eq(sp[1], loop.k) and _is_zero_array(cell.old)
+            # (the loop runs over every column and each pass overwrites a whole column: what the new array held before does not matter)
+            good = per_col and len(sp) == 2 and eq(sp[0], S.FULL) and eq(sp[1], loop.k) and _is_fresh_array(cell.old)
             bufs.append((F.fn("loopres", loop.k, S.as_rat(loop.n), cell.new), good, cell.node, cell.ix))
             continue
         # the columns collected by a comprehension and stacked:  column_stack([...]) / array([...]).T / stack([...], axis=1)
@@ -1151,7 +1175,7 @@ def _rescale_regime(ctx, fn, shape):
             continue
         bufs.append((hold, per_col and eq(un(comp, "comp")[0], loop.k), c.node, loop.k))
     ok = all(x is not None and x[1] for x in bufs)
-    msg_ = f"{tag}: for every column i of the PSD, the curve's column i at the lower / upper edges is stored in column i of a zero array (one array per edge set)"
+    msg_ = f"{tag}: for every column i of the PSD, the curve's column i at the lower / upper edges is stored in column i of a new array (one array per edge set)"
     lost = [c for c, x in zip(ip, bufs) if x is None]
     if lost and any(find_atoms(ns[0], lambda n, a_, key=S.fkey(c.value): n == "call:np.interp" and S.fkey(F.fn(n, *a_)) == key) for c in lost):
         # where an interpolated column went was not followed (a store form that is not modelled), yet it reaches the result: not decided
